@@ -100,9 +100,27 @@ Proof.
     + intros Hin. apply in_app_or in Hin. destruct Hin as [Hin | Hin]; [tauto|].
       destruct (A2 x (or_introl eq_refl)) as [_ P1]. destruct (B2 x Hin) as [_ P2]. rewrite (kern_prefixes_differ x P1) in P2. discriminate.
     + apply IH; [exact Hnd|]. intros v Hv. apply A2. right. exact Hv.
-  - intros v Hv. apply in_app_or in Hv. destruct Hv as [Hv | Hv]; [apply (A2 v Hv) | apply (B2 v Hv)].
+  - intros v Hv Hin. apply in_app_or in Hv.
+    destruct Hv as [Hv | Hv]; [apply (proj1 (A2 v Hv)) | apply (proj1 (B2 v Hv))]; apply in_or_app; left; exact Hin.
   - rewrite A3. apply sort_names_nodup.
   - rewrite B3. apply sort_names_nodup.
+Qed.
+
+(* ... and none of them is a key of the kerning it will be put into (so no kerning row or value is overwritten) *)
+Theorem new_names_not_kerning_keys kerning groups glyphSet k g r1 r2 :
+  convert kerning groups glyphSet = Ok (k, g, r1, r2) ->
+  (forall v, In v (map snd r1) -> ~ In v (map fst kerning)) /\
+  (forall v, In v (map snd r2) -> ~ In v (flat_map (fun row => map fst (snd row)) kerning)).
+Proof.
+  unfold convert.
+  destruct (rename_loop MMK_L KERN1 _ _ []) as [a|] eqn:E1; [|discriminate].
+  destruct (rename_loop MMK_R KERN2 _ _ []) as [b|] eqn:E2; [|discriminate].
+  intros [= <- <- <- <-].
+  destruct (rename_loop_spec _ _ _ _ _ _ E1) as (A1 & A2 & A3); [constructor | intros v [] |].
+  destruct (rename_loop_spec _ _ _ _ _ _ E2) as (B1 & B2 & B3); [constructor | intros v [] |].
+  split; intros v Hv Hin.
+  - apply (proj1 (A2 v Hv)). apply in_or_app. right. exact Hin.
+  - apply (proj1 (B2 v Hv)). apply in_or_app. right. exact Hin.
 Qed.
 
 Example conversion_example :
